@@ -558,6 +558,7 @@ func (W *World) racTest(fn *ssa.Function, fc *FuncContract) (string, error) {
 	}
 	sb.WriteString("\nfunc TestVerifReplay(tt__ *testing.T) {\n")
 	sb.WriteString("\tseed__ := int64(racEnvInt(\"VERIF_SEED\", 1))\n\ttrials__ := racEnvInt(\"RAC_TRIALS\", 30000)\n\tonly__ := racEnvInt(\"RAC_ONLY\", -1)\n")
+	sb.WriteString("\tdone_trials__ := 0\n")
 	sb.WriteString("\tdeadline__ := time.Now().Add(time.Duration(racEnvInt(\"RAC_SECONDS\", 25)) * time.Second)\n")
 	sb.WriteString("\tfor trial__ := 0; trial__ < trials__; trial__++ {\n\t\tif time.Now().After(deadline__) { break }\n")
 	sb.WriteString("\t\trng__ := rand.New(rand.NewSource(seed__*1000003 + int64(trial__)))\n\t\t_ = rng__\n")
@@ -720,7 +721,7 @@ func (W *World) racTest(fn *ssa.Function, fc *FuncContract) (string, error) {
 		}
 	}
 	W.racDifferential(&sb, fn, fc, params, call, nres)
-	sb.WriteString("\t}\n}\n")
+	sb.WriteString("\t\tdone_trials__++\n\t}\n\tfmt.Printf(\"RACDONE trials=%d\\n\", done_trials__)\n}\n")
 	return sb.String(), nil
 }
 
@@ -853,7 +854,7 @@ func runRAC(W *World, src string, env []string, timeout time.Duration) (string, 
 	os.WriteFile(ovFile, ovData, 0o644)
 	ctx, cancel := context.WithTimeout(context.Background(), timeout)
 	defer cancel()
-	cmd := exec.CommandContext(ctx, "go", "test", "-overlay", ovFile, "-vet=off", "-count=1", "-timeout", "120s", "-run", "TestVerifReplay$", ".")
+	cmd := exec.CommandContext(ctx, "go", "test", "-overlay", ovFile, "-vet=off", "-count=1", "-v", "-timeout", "120s", "-run", "TestVerifReplay$", ".")
 	cmd.Dir = W.repoDir
 	cmd.Env = append(append(os.Environ(), "GOFLAGS=-mod=mod", "GOPROXY=off", "GOSUMDB=off", "GOTOOLCHAIN=local"), env...)
 	var out bytes.Buffer
